@@ -169,3 +169,35 @@ def pure_memo_store(fd, store, table_name, module_consts):
     if dk is None or dv is None or not dv <= dk:
         return None
     return 'value computed only from the key components {}'.format(sorted(dk))
+
+
+def difference_comparator(fn):
+    """For a two-parameter comparator `(a, b) => K(a) - K(b)` (arrow / lambda with an expression body, or a function whose body is
+    one return): ('asc', K-text) when the first parameter is the minuend, ('desc', K-text) when it is the subtrahend; None when the
+    function has another shape.  K-text is the key expression with the parameter replaced by `_` (`_` for the value itself,
+    `_[1]` for its second element)."""
+    import ast as _ast
+    params = body = None
+    if isinstance(fn, _ast.Lambda):
+        params, body = [a.arg for a in fn.args.args], fn.body
+    else:
+        ref = getattr(fn, 'js_function_ref', None) if not isinstance(fn, _ast.FunctionDef) else fn
+        if ref is not None:
+            sts = [s_ for s_ in ref.body if not isinstance(s_, _ast.Pass)]
+            if len(sts) == 1 and isinstance(sts[0], _ast.Return) and sts[0].value is not None:
+                params, body = [a.arg for a in ref.args.args], sts[0].value
+    if params is None or len(params) != 2 or not (isinstance(body, _ast.BinOp) and isinstance(body.op, _ast.Sub)):
+        return None
+
+    def key_of(e, prm):
+        names = {x.id for x in _ast.walk(e) if isinstance(x, _ast.Name)}
+        if names != {prm}:
+            return None
+        return _ast.unparse(e).replace(prm, '_') if hasattr(_ast, 'unparse') else None
+    l0, r1 = key_of(body.left, params[0]), key_of(body.right, params[1])
+    if l0 is not None and l0 == r1:
+        return ('asc', l0)
+    l1, r0 = key_of(body.left, params[1]), key_of(body.right, params[0])
+    if l1 is not None and l1 == r0:
+        return ('desc', l1)
+    return None
